@@ -54,11 +54,12 @@ class World:
         from pkgcore.config import basics
         from pkgcore.config.hint import ConfigHint
         from pkgcore.scripts import pclean
-        from pkgcore.test.misc import FakePkg, FakeRepo
+        from pkgcore.ebuild.cpv import VersionedCPV
+        from pkgcore.repository.util import SimpleTree
         from pkgcore.test.scripts.helpers import ArgParseMixin
         from snakeoil.formatters import PlainTextFormatter
 
-        self.FakePkg, self.FakeRepo, self.Fmt = FakePkg, FakeRepo, PlainTextFormatter
+        self.CPV, self.SimpleTree, self.Fmt = VersionedCPV, SimpleTree, PlainTextFormatter
         self.root = mktmp("pclean")
         self.distdir = os.path.join(self.root, "distfiles")
         self.xfile = os.path.join(self.root, "exclude.list")
@@ -81,10 +82,34 @@ class World:
         self.parser = Parser()
         self.section = basics.HardCodedConfigSection({"class": stub_domain, "default": True})
 
-    def _pkg(self, d):
-        p = self.FakePkg(f"{d['cat']}/{d['pkg']}-{d['ver']}", slot=d["slot"], restrict="fetch" if d["restricted"] else "")
-        object.__setattr__(p, "distfiles", tuple(d["dist"]))
-        return p
+    def _tree(self, pkgs, repo_id, livefs=False):
+        """a real in-memory repository (pkgcore.repository.util.SimpleTree, i.e. prototype.tree with its candidate
+        pruning and itermatch) whose packages carry the distfiles / RESTRICT of the scenario"""
+        meta = {f"{d['cat']}/{d['pkg']}-{d['ver']}": d for d in pkgs}
+
+        class Pkg(self.CPV):
+            __slots__ = ()
+
+            @property
+            def distfiles(s):
+                return tuple(meta[s.cpvstr]["dist"])
+
+            @property
+            def restrict(s):
+                return ("fetch",) if meta[s.cpvstr]["restricted"] else ()
+
+            @property
+            def slot(s):
+                return meta[s.cpvstr]["slot"]
+
+            subslot = slot
+
+        cpv_dict = {}
+        for d in pkgs:
+            vers = cpv_dict.setdefault(d["cat"], {}).setdefault(d["pkg"], [])
+            if d["ver"] not in vers:
+                vers.append(d["ver"])
+        return self.SimpleTree(cpv_dict, pkg_klass=Pkg, livefs=livefs, repo_id=repo_id)
 
     def build(self, case):
         shutil.rmtree(self.root, ignore_errors=True)
@@ -104,8 +129,8 @@ class World:
         if case["xfile"]:
             with open(self.xfile, "w") as f:
                 f.write("\n".join(case["xfile"]))  # (no trailing newline, see the module docstring)
-        self.repo = self.FakeRepo(pkgs=[self._pkg(d) for d in case["repo"]], repo_id="fake", location=os.path.join(self.root, "no-such-repo"))
-        self.installed = self.FakeRepo(pkgs=[self._pkg(d) for d in case["installed"]], repo_id="vdb")
+        self.repo = self._tree(case["repo"], "fake")
+        self.installed = self._tree(case["installed"], "vdb", livefs=True)
 
     def argv(self, case, r_=None):
         """the command line of the scenario (short or long option spellings)"""
@@ -207,6 +232,8 @@ def rand_case(r_):
     seen = set()
     repo = [d for d in repo if (d["cat"], d["pkg"], d["ver"]) not in seen and not seen.add((d["cat"], d["pkg"], d["ver"]))]
     installed = [mkpkg() for _ in range(r_.randint(0, 3))]
+    seen = set()
+    installed = [d for d in installed if (d["cat"], d["pkg"], d["ver"]) not in seen and not seen.add((d["cat"], d["pkg"], d["ver"]))]
     names = {n for d in repo + installed for n in d["dist"] if r_.random() < 0.85}
     for _ in range(r_.randint(1, 5)):  # stale / unrelated files
         names.add(r_.choice([f"{r_.choice(PNAMES)}-{r_.choice(['0.1', '0.9', '7'])}.tar.gz", "unrelated.bin", "README", f"{r_.choice(PNAMES)}.tar"]))
@@ -214,7 +241,7 @@ def rand_case(r_):
     pat = lambda: r_.choice([r_.choice(PNAMES), r_.choice(CATS) + "/" + r_.choice(PNAMES), r_.choice(CATS) + "/*", r_.choice(PNAMES)[:3] + "*",
                              "*" + r_.choice(PNAMES)[-3:], "*/" + r_.choice(PNAMES)])
     targets = sorted({pat() for _ in range(r_.choice([0, 0, 1, 1, 2]))})
-    excludes = sorted({pat() for _ in range(r_.choice([0, 0, 1, 1, 2]))})
+    excludes = sorted({pat() for _ in range(r_.choice([0, 0, 1, 2, 2, 3]))})
     xfile = sorted({pat() for _ in range(r_.choice([0, 0, 1, 1, 2]))})
     opts = dict(exclInstalled=r_.random() < 0.4, exclExists=r_.random() < 0.4, exclFetch=r_.random() < 0.4,
                 useM=r_.random() < 0.3, useS=r_.random() < 0.3, T=2, S=200)
@@ -227,8 +254,9 @@ def run(ck):
                "real `pclean dist` argument parser + main function; non-trivial = distinct scenario in which at least one file was removed and at least one "
                "file selected by the targets was kept")
     ck.assumptions = [
-        "repositories are pkgcore.test.misc.FakeRepo/FakePkg objects (distfiles, RESTRICT=fetch, real CPV parsing); the default domain of the "
-        "config handed to the real argument parser is a stub exposing distdir / all_installed_repos / source_repos",
+        "repositories are real in-memory trees (pkgcore.repository.util.SimpleTree = prototype.tree: candidate pruning, itermatch, "
+        "multiplexing as in production) whose packages are VersionedCPV objects carrying distfiles / RESTRICT=fetch; the default domain "
+        "of the config handed to the real argument parser is a stub exposing distdir / all_installed_repos / source_repos",
         "the target-name heuristics are observed (tool's own listing for the targets alone), not specified",
         "stdout is presented as a tty (the script only lists when it is not)",
     ]
